@@ -453,7 +453,11 @@ def run_commands(tier, budget: Budget, rnd, res: StreamResult, base: Path) -> No
         steps = rnd.choice([1, 2])
         reps = rnd.choice([1, 2, 3])
         name = f"{cmd}-{i}" if rnd.random() < 0.8 or not state["order"] else rnd.choice(state["order"])
-        gen = rnd.choice(["factory", "factory", "graph", "noisy_factory", "factory_square"]) if tier != "quick" else "factory"
+        # structural parameters follow the run index (not the PRNG), so that every tier always contains a multi-repetition
+        # best_states run over a continuous generator (its repetition blocks then differ pairwise)
+        gen = rnd.choice(["factory", "factory", "graph", "noisy_factory", "factory_square"]) if tier != "quick" else \
+            ("noisy_factory" if cmd == "best_states" else "factory")
+        eval_reps = [2, 3, 1][(i // 3) % 3]
         argv = ["--number-of-players", str(n), "--run-steps-limit", str(steps), "--model-dir", str(model_dir),
                 "--parallel-environments", "1", "--unique-name", name, "--seed", str(rnd.randint(0, 10 ** 6)),
                 "--game-generator", gen]
@@ -462,7 +466,7 @@ def run_commands(tier, budget: Budget, rnd, res: StreamResult, base: Path) -> No
         elif cmd == "greedy":
             argv += ["greedy", "--sampling-repetitions", str(reps)]
         else:
-            argv += ["best_states", "--sampling-repetitions", str(reps), "--eval-repetitions", str(rnd.choice([1, 2]))]
+            argv += ["best_states", "--sampling-repetitions", str(reps), "--eval-repetitions", str(eval_reps)]
         if command_case(res, argv, state):
             res.nontrivial.add(("cmd", cmd, n, steps, reps, i))
 
